@@ -216,7 +216,11 @@ def analyse(ctx, C, fn, rep):
                     viol.append((desc, wit, fn.loc(e.ins) if e is not None and not isinstance(e, str) and e.ins else loc, cs.kenv))
                 else:
                     unk.append('cannot prove: %s' % desc)
-    from props import C04_content
+    from props import C04_content, C04_search
+    try:
+        C04_search.check(C, fn, name, dom, loop_leaves, facts0, rep)
+    except Unsupported as e:
+        rep.unk('B9', name, str(e), loc=loc)
     try:
         C04_content.check(C, fn, name, dom, leaves, facts0, rep)
     except Unsupported as e:
@@ -363,6 +367,7 @@ def run(ctx):
     rep.floor('B5w', 4)
     rep.floor('B5', 1)
     rep.floor('B6', 4)
+    rep.floor('B9', 6)
     rep.floor('B2', 50)
 
 
